@@ -218,6 +218,11 @@ def run(ctx):
         srcs.append(text)
     srcs.append("fn main() -> int {\n    let a: int = 9223372036854775807\n    let b: int = (+ a 1)\n    (println b)\n    (println (* a 3))\n    (println (- (- 0 a) 2))\n    return 0\n}\nshadow main { assert (== 1 1) }\n")
     srcs += stdlib_edge_programs(rng, 2 if quick else 12)
+    # strings larger than any fixed-size assumption in the runtime (1 MiB, 2 MiB, just around them), as left and right operand
+    for tgt in ([1048576, 2097152] if quick else [65536, 1048575, 1048576, 1048577, 2097152, 4194304]):
+        srcs.append("fn main() -> int {\n    let mut s: string = \"x\"\n    while (< (str_length s) %d) {\n        set s (+ s s)\n    }\n    let a: string = (+ \"#\" s)\n    let b: string = (+ s \"#\")\n"
+                    "    let c: string = (str_concat a b)\n    (println (str_length a))\n    (println (str_length b))\n    (println (str_length c))\n    (println (str_substring c (- (str_length c) 3) 3))\n"
+                    "    (println (str_contains b \"#\"))\n    (println (== a b))\n    return 0\n}\nshadow main { assert (== 1 1) }\n" % tgt)
     # every arithmetic operator at the boundary pairs (operands arrive as function parameters, so the C compiler cannot fold them)
     from .. import lang
     bpairs = [(a, b) for a in lang.BOUNDARY for b in lang.BOUNDARY]
